@@ -501,21 +501,31 @@ def _r12g(cx, gen):
             raise AnalysisError("R12g", f"{REL}::_PPTableImpl.gen_ch_lines", f"form of the skipped-records count not recognised: {norm(formula)[:80]}")
         ok = verdict
     cx.ob("R12g", gen, ok, "skipped = total records - records among the shown lines" if ok else "the announced number of skipped records is not total - shown", stmt="n_skipped")
-    lim = [s for s in gen.body if isinstance(s, ast.If) and "first_lines" in {n.id for x in s.body for n in ast.walk(x) if isinstance(n, ast.Name)}]
+    # the condition under which the first / last slices are taken: the must-facts at the statement that takes them, whatever
+    # the spelling (branch polarity, negations, mirrored comparisons)
+    lim = [st for st, v in assignments(gen, "first_lines") if v is not None]
     ok = len(lim) == 1
     if ok:
-        from sa.guards import split
+        from sa.guards import canon_fact
         from sa.poly import linear
-        fs = split(lim[0].test, True)
-        txt = {norm(e) for e, pol in fs if pol}
-        both = "n_first is not None" in txt and "n_last is not None" in txt
+        fs = facts(lim[0])
+        cfs = {canon_fact(e, pol) for e, pol in fs}
+        both = ("is", "n_first", "None", False) in cfs and ("is", "n_last", "None", False) in cfs
         thr = False
         for e, pol in fs:
-            if pol and isinstance(e, ast.Compare) and len(e.ops) == 1 and norm(e.left) == f"len({lines})" and isinstance(e.ops[0], (ast.Gt, ast.GtE)):
-                lin = linear(e.comparators[0])
+            if not (isinstance(e, ast.Compare) and len(e.ops) == 1 and type(e.ops[0]) in (ast.Lt, ast.LtE, ast.Gt, ast.GtE)):
+                continue
+            l_, r_, op = e.left, e.comparators[0], type(e.ops[0])
+            if not pol:
+                op = {ast.Lt: ast.GtE, ast.GtE: ast.Lt, ast.Gt: ast.LtE, ast.LtE: ast.Gt}[op]
+            if op in (ast.Lt, ast.LtE):
+                l_, r_, op = r_, l_, {ast.Lt: ast.Gt, ast.LtE: ast.GtE}[op]
+            # now: l_ > r_  or  l_ >= r_
+            if norm(l_) == f"len({lines})":
+                lin = linear(r_)
                 if lin is not None and lin.get("n_first") == 1 and lin.get("n_last") == 1 and set(lin) <= {"n_first", "n_last", 1}:
                     c0 = lin.get(1, 0)
-                    thr = c0 >= (0 if isinstance(e.ops[0], ast.Gt) else 1)
+                    thr = thr or c0 >= (0 if op is ast.Gt else 1)
         ok = both and thr
     cx.ob("R12g", lim[0] if lim else gen, ok, "limits apply only when both are set and there are more lines than first+last (the two slices cannot overlap)" if ok else
           "limit condition does not guarantee len(lines) > n_first + n_last with both limits set: first and last slices may overlap (records shown twice)")
